@@ -300,7 +300,8 @@ def _odd(rng, hi=5):
 
 def _frame(o):
     """(native shape, pixel scales) of the mask an object lives on, from plain attributes only (no property of the library is read)"""
-    m = o if type(o).__name__ in ("Mask2D", "Mask1D") else getattr(o, "__dict__", {}).get("mask")
+    d_ = getattr(o, "__dict__", {})
+    m = o if type(o).__name__ in ("Mask2D", "Mask1D") else (d_.get("mask") if d_.get("mask") is not None else d_.get("real_space_mask"))
     arr = getattr(m, "__dict__", {}).get("_array") if m is not None else None
     if arr is None:
         return None
@@ -400,7 +401,8 @@ def curated_calls(obj, rng, nodes_by_type, env=None):
         out.append({"t": "call", "name": "grid_2d_radial_projected_shape_slim_from", "kw": {"centre": c}})
         out.append({"t": "call", "name": "subtracted_from", "kw": {"offset": _T(rng.uniform(-1, 1), rng.uniform(-1, 1))}})
         out.append({"t": "call", "name": "extent_with_buffer_from", "kw": {"buffer": 1e-8}})
-        out.append({"t": "call", "name": "trimmed_after_convolution_from", "kw": {"kernel_shape": kshape}})
+        if rng.random() < 0.1:
+            out.append({"t": "call", "name": "trimmed_after_convolution_from", "kw": {"kernel_shape": kshape}})  # raises NotImplementedError by design
     if tn in ("OverSamplerUniform", "OverSamplerIterate"):
         a = pick("Array2D")
         pass
@@ -543,8 +545,6 @@ def curated_calls(obj, rng, nodes_by_type, env=None):
         pass
     if tn == "Grid2DIrregular":
         c = _T(rng.uniform(-2, 2), rng.uniform(-2, 2))
-        out.append({"t": "call", "name": "grid_with_coordinates_within_distance_removed_from",
-                    "kw": {"coordinates": {"$list": [_T(rng.uniform(-2, 2), rng.uniform(-2, 2)) for _ in range(rng.randrange(1, 3))]}, "distance": rng.choice([0.6, 1.1, 2.0])}})
         out.append({"t": "call", "name": "distances_to_coordinate_from", "kw": {"coordinate": c}})
         out.append({"t": "call", "name": "extent_with_buffer_from", "kw": {"buffer": 1e-8}})
     if tn in ("Array2D", "Kernel2D", "Grid2D", "VectorYX2D", "Array1D", "Grid1D", "Grid2DIrregular", "ArrayIrregular", "Visibilities", "VisibilitiesNoiseMap",
